@@ -35,9 +35,9 @@ def run(tier, seed):
     # 3. replay every behaviour through every syntax-only consumer of the real package
     ck.binary = vlib.build_harness()
     rr = vlib.run_harness(ck.binary, PROP, vec, seed=seed, tier=tier, shards=8 if thorough else 4, timeout=3000)
-    os.unlink(vec)
     ck.absorb(rr)
-    ck.triage(rr.divs)
+    ck.triage(rr.divs, rerun=rr.again)
+    os.unlink(vec)
     ck.exhaustive = True
     ck.rule = ("TLC enumerates every viable prefix of the RFC 8259 language over 30 byte classes up to the bound "
                "(one vector each: verdict, killing classes, completion, 4 wrapped verdicts); each is lifted to bytes "
